@@ -15,6 +15,12 @@ CHECKS = {
     "C03": ("2 (C03)", "The real socket_read_task is driven over streams of 2-3 encoder-produced frames split at solver-chosen offsets "
                   "(every 1-cut partition, 2-cut partitions, the all-1-byte partition, marker-free symbolic garbage around frames); "
                   "delivered frames / journal rows must equal the frames sent."),
+    "C08": ("2 (C08)", "Operation sequences on the real Journaler (FakeSQLite) with the crash slot as a solver variable over every point "
+                  "before/after every SQL statement and commit, plus normal close; after the crash a fresh Journaler must show a state "
+                  "at an operation boundary. Counterexamples and sampled witnesses are re-run on the real sqlite3 with os._exit in a child."),
+    "C13": ("2 (C13)", "Every public Journaler method on FakeSQLite (interprets the SQL text of the running code) from pre-states with "
+                  "symbolic rows across sessions (incl. mirror-image CompIDs) and directions, then operations with symbolic arguments, "
+                  "compared step by step with a reference map model."),
     "C10": ("2 (C10)", "Codec.decode(silent=True) on fully symbolic buffers, grammar-shaped buffers with symbolic field contents over all 256 "
                   "byte values, and every single-byte substitution/deletion/insertion of valid frames; live-reader cells drive the real "
                   "socket_read_task over malformed input followed by valid frames."),
